@@ -16,3 +16,28 @@ Theorem C14_source_validate_scoped_signer : forall (V : Type) (vnil : V) (scope_
   = validate_scoped_signer scope_key k iss upl.
 Proof. intros V vnil. exact (src_validate_scoped_signer vnil). Qed.
 Print Assumptions C14_source_validate_scoped_signer.
+
+(* IssueUserJWT (v2/creds_utils.go): the roles of account id and user key are tested first, in that order, and nothing
+   is asked of the signer beyond what Encode asks; the claims handed to Encode are exactly: made for the user key, scoped
+   (no permissions or limits of their own), expiring at "the clock plus the duration" exactly when the duration is not
+   zero, the account as issuer account, the name given (the user key when none is), the user key as subject, the tags
+   as given - every store in this order, whatever the stores and Encode are (the claims are a value of the function's
+   own; NewUserClaims, SetScoped, the field stores and Encode are unknown functions). *)
+Theorem C14_source_issue_user_jwt : forall (V : Type) (vnil : V) (new_user : list go_event -> string -> V) (is_acct is_user : string -> bool) (now_add : Z -> Z)
+    (enc : V -> list go_event -> string * option string) (set_scoped : V -> bool -> V) (set_exp : V -> Z -> V)
+    (set_issuer_account set_name set_subject : V -> string -> V) (set_tags : V -> list string -> V)
+    (account_id user_key name : string) (d : Z) (tags : list string),
+  V2.IssueUserJWT V vnil new_user is_acct is_user now_add enc set_scoped set_exp set_issuer_account set_name set_subject set_tags
+    account_id user_key name d tags
+  = ([], if negb (is_acct account_id) then ("", Some "error")
+         else if negb (is_user user_key) then ("", Some "error")
+         else match snd (enc (issued_claims new_user now_add set_scoped set_exp set_issuer_account set_name set_subject set_tags account_id user_key name d tags) []) with
+              | None => (fst (enc (issued_claims new_user now_add set_scoped set_exp set_issuer_account set_name set_subject set_tags account_id user_key name d tags) []), None)
+              | Some _ => ("", Some "error")
+              end)%list.
+Proof. intros V vnil new_user is_acct is_user now_add enc. exact (src_issue_user_jwt vnil new_user is_acct is_user now_add enc). Qed.
+Print Assumptions C14_source_issue_user_jwt.
+Theorem C14_source_issue_user_jwt_consults :
+  V2.IssueUserJWT_consults = ["go_NewUserClaims"; "go_nkeys_IsValidPublicAccountKey"; "go_nkeys_IsValidPublicUserKey"; "go_now_add"]%list.
+Proof. reflexivity. Qed.
+Print Assumptions C14_source_issue_user_jwt_consults.
